@@ -38,8 +38,9 @@ type scope struct {
 	constructingMu sync.Mutex
 
 	// Track disposable scoped instances
-	disposables   []Disposable
-	disposablesMu sync.Mutex
+	disposables       []Disposable
+	disposablesClosed bool // set by Close once the list has been drained
+	disposablesMu     sync.Mutex
 
 	// Child scopes for hierarchical cleanup
 	children   map[*scope]struct{}
@@ -193,15 +194,22 @@ func (s *scope) CreateScope(ctx context.Context) (Scope, error) {
 		return nil, fmt.Errorf("failed to create child scope: %w", err)
 	}
 
-	// Track child
+	// Track child. If this scope has been closed in the meantime the child
+	// cannot be adopted any more: dispose it and report the scope as disposed.
 	s.childrenMu.Lock()
+	if s.children == nil {
+		s.childrenMu.Unlock()
+		_ = child.Close()
+		return nil, ErrScopeDisposed
+	}
 	s.children[child] = struct{}{}
 	s.childrenMu.Unlock()
 
 	// Track in provider
-	s.rootProvider.scopesMu.Lock()
-	s.rootProvider.scopes[child] = struct{}{}
-	s.rootProvider.scopesMu.Unlock()
+	if !s.rootProvider.trackScope(child) {
+		_ = child.Close()
+		return nil, ErrProviderDisposed
+	}
 
 	// Auto-close on context cancellation
 	go func() {
@@ -248,6 +256,7 @@ func (s *scope) Close() error {
 	s.disposablesMu.Lock()
 	disposables := s.disposables
 	s.disposables = nil
+	s.disposablesClosed = true
 	s.disposablesMu.Unlock()
 
 	for i := len(disposables) - 1; i >= 0; i-- {
@@ -316,22 +325,49 @@ func (s *scope) getInstance(key instanceKey) (any, bool) {
 // setInstance caches an instance in this scope in a thread-safe manner.
 // It also tracks the instance if it implements the Disposable interface
 // for proper cleanup when the scope is closed.
-func (s *scope) setInstance(descriptor *Descriptor, key instanceKey, instance any) {
+//
+// If the scope has been closed in the meantime (a Close overlapping the
+// construction), the instance can no longer be owned by the scope: it is
+// disposed right here and ErrScopeDisposed is returned.
+func (s *scope) setInstance(descriptor *Descriptor, key instanceKey, instance any) error {
 	switch descriptor.Lifetime {
 	case Singleton:
 		s.rootProvider.setSingleton(key, instance)
+		return nil
 	case Scoped:
 		s.instancesMu.Lock()
+		if s.instances == nil {
+			s.instancesMu.Unlock()
+			return s.rejectInstance(instance)
+		}
 		s.instances[key] = instance
 		s.instancesMu.Unlock()
 		fallthrough
 	case Transient:
 		if d, ok := instance.(Disposable); ok {
 			s.disposablesMu.Lock()
+			if s.disposablesClosed {
+				s.disposablesMu.Unlock()
+				return s.rejectInstance(instance)
+			}
 			s.disposables = append(s.disposables, d)
 			s.disposablesMu.Unlock()
 		}
 	}
+
+	return nil
+}
+
+// rejectInstance disposes an instance that was constructed while the scope was
+// being closed and reports the scope as disposed.
+func (s *scope) rejectInstance(instance any) error {
+	if d, ok := instance.(Disposable); ok {
+		if err := d.Close(); err != nil {
+			return fmt.Errorf("%w: failed to dispose instance created during close: %w", ErrScopeDisposed, err)
+		}
+	}
+
+	return ErrScopeDisposed
 }
 
 var (
@@ -444,7 +480,9 @@ func (s *scope) createInstance(descriptor *Descriptor) (any, error) {
 			Group: descriptor.Group,
 		}
 
-		s.setInstance(descriptor, key, instance)
+		if err := s.setInstance(descriptor, key, instance); err != nil {
+			return nil, err
+		}
 		return instance, nil
 	}
 
@@ -488,7 +526,9 @@ func (s *scope) createInstance(descriptor *Descriptor) (any, error) {
 			Key:   descriptor.Key,
 			Group: descriptor.Group,
 		}
-		s.setInstance(descriptor, key, emptyStruct)
+		if err := s.setInstance(descriptor, key, emptyStruct); err != nil {
+			return nil, err
+		}
 		return emptyStruct, nil
 	}
 
@@ -514,6 +554,7 @@ func (s *scope) createInstance(descriptor *Descriptor) (any, error) {
 
 		// Find the primary service to return
 		var primaryService any
+		var setErr error
 		for _, reg := range registrations {
 			value := reg.Value
 
@@ -542,7 +583,13 @@ func (s *scope) createInstance(descriptor *Descriptor) (any, error) {
 				Group: reg.Group,
 			}
 
-			s.setInstance(regDescriptor, key, value)
+			if err := s.setInstance(regDescriptor, key, value); err != nil {
+				setErr = err
+			}
+		}
+
+		if setErr != nil {
+			return nil, setErr
 		}
 
 		if primaryService == nil {
@@ -557,6 +604,7 @@ func (s *scope) createInstance(descriptor *Descriptor) (any, error) {
 
 	// Handle multi-return constructors
 	if descriptor.MultiReturnIndex >= 0 {
+		var setErr error
 		for _, ret := range info.Returns {
 			if ret.IsError {
 				continue
@@ -580,7 +628,13 @@ func (s *scope) createInstance(descriptor *Descriptor) (any, error) {
 				Group: serviceDescriptor.Group,
 			}
 
-			s.setInstance(serviceDescriptor, key, value)
+			if err := s.setInstance(serviceDescriptor, key, value); err != nil {
+				setErr = err
+			}
+		}
+
+		if setErr != nil {
+			return nil, setErr
 		}
 
 		return results[descriptor.MultiReturnIndex].Interface(), nil
@@ -600,7 +654,9 @@ func (s *scope) createInstance(descriptor *Descriptor) (any, error) {
 		Group: descriptor.Group,
 	}
 
-	s.setInstance(descriptor, key, instance)
+	if err := s.setInstance(descriptor, key, instance); err != nil {
+		return nil, err
+	}
 	return instance, nil
 }
 
